@@ -9,12 +9,14 @@ ARITH = {"ruleDateInterval", "ruleTimeDuration", "ruleDurationInterval", "ruleIn
 # dateutil.rrule cannot be executed symbolically (CrossHair modelling TypeError in
 # datetime.combine; DESIGN §3): the rule is outside every claim
 OUT_OF_REACH = {"ruleDOWDOM"}
+TS_RULES = {"ruleLatentDOM", "ruleLatentDOY", "ruleLatentDOW", "ruleLatentPOD", "ruleAtDOW", "ruleNextDOW", "ruleDOWNextWeek", "ruleToday", "ruleNow",
+            "ruleTomorrow", "ruleAfterTomorrow", "ruleYesterday", "ruleBeforeYesterday", "ruleEOM", "ruleEOY", "ruleYear", "ruleHHMMmilitary"}
 
 
 QUICK_PODS = ["morning", "afternoon", "night", "last", "veryearlymorning", "noon"]
 MULTI_PODS = ["morning", "night", "veryearlymorning"]
-CLAUSES = {"C02": ["exc", "wf", "closure", "span"], "C01": ["exc"], "C15": ["frame"], "C12": ["frame"]}
-PER_RULE_QUICK = {"C02": 4, "C01": 2, "C15": 2, "C12": 1}
+CLAUSES = {"C02": ["exc", "wf", "closure", "span"], "C01": ["exc", "wf"], "C15": ["frame"], "C12": ["frame"]}
+PER_RULE_QUICK = {"C02": 6, "C01": 3, "C15": 2, "C12": 2}
 
 
 def wf_jobs(prop, tier, rules=None, cell=(2024, 2), lift=True, timeout=None, extra=None):
@@ -31,8 +33,16 @@ def wf_jobs(prop, tier, rules=None, cell=(2024, 2), lift=True, timeout=None, ext
     for r, keys in per_rule.items():
         if len(keys) <= cap:
             keep |= set(keys)
-        else:   # evenly spaced, deterministic
-            keep |= {keys[(i * len(keys)) // cap] for i in range(cap)}
+        else:
+            # deterministic choice: tuples on which the rule actually produces something first,
+            # simpler (more reachable) argument shapes before richer ones
+            def rank(k):
+                ob = b["obligations"][k]
+                produces = any(a != "N" for a in ob["allowed"])
+                nfields = sum(str(a[1]).count(",") + 1 for a in ob["args"] if a[0] == "art")
+                both = sum(1 for a in ob["args"] if a[0] == "art" and str(a[1]).startswith("I:") and "N" not in str(a[1]).replace("I:", "").split("|"))
+                return (not produces, -both, nfields, k)
+            keep |= set(sorted(keys, key=rank)[:cap])
     jobs = []
     for key, ob in sorted(b["obligations"].items()):
         name = ob["rule"]
@@ -56,6 +66,9 @@ def wf_jobs(prop, tier, rules=None, cell=(2024, 2), lift=True, timeout=None, ext
         elif npod and tier == "quick":
             spec["pods"] = qp
         variants = [(spec, "")]
+        if name in TS_RULES and prop in ("C01", "C02"):
+            # rules that read the reference time: more year-month cells (after a leap day, year end)
+            variants = [(dict(spec, _cell=c), "/ts%d-%02d" % c) for c in ([(2024, 2), (2024, 3), (2023, 12)] if tier == "quick" else [(2024, 2), (2024, 3), (2023, 12), (2023, 2), (2024, 12), (2028, 6)])]
         if name == "ruleTimeDuration":
             variants = []
             for ui in range(6):
@@ -65,13 +78,14 @@ def wf_jobs(prop, tier, rules=None, cell=(2024, 2), lift=True, timeout=None, ext
                     sp["maxdur"] = 13 if tier == "quick" else 60
                 variants.append((sp, "/unit%d" % ui))
         for spec_v, suffix in variants:
-            env = {"VQ_PROP": prop, "VQ_SPEC": json.dumps(spec_v), "VQ_Y": str(cell[0]), "VQ_M": str(cell[1])}
+            cell_v = spec_v.pop("_cell", None) or cell
+            env = {"VQ_PROP": prop, "VQ_SPEC": json.dumps(spec_v), "VQ_Y": str(cell_v[0]), "VQ_M": str(cell_v[1])}
             bounds = ("arguments: every field present in the shape symbolic over the invariant WF (year 1880..2109{}), parts of day by index over the live table, "
                       "regex groups by presence pattern and numeric range; ts: every instant of {}-{:02d}{}"
                       .format("" if not years else "; fully dated arguments in year-month cells {}, duration amount <= {}".format(spec["ym"], spec["maxdur"]), cell[0], cell[1],
                               "; parts of day restricted to {} table keys".format(len(spec["pods"])) if "pods" in spec else ""))
             jobs.append(Job("{}.WF[{}]{}".format(prop, key, suffix), "vq.harness.h_wf", "ob_step", env=env,
-                            timeout=timeout or (150 if tier == "quick" else 600), bounds=bounds + "; clauses " + ",".join(spec["clauses"] or ["all"]),
+                            timeout=timeout or (600 if tier == "quick" else 1500), bounds=bounds + "; clauses " + ",".join(spec["clauses"] or ["all"]),
                             functions=[fn_id(body(name)), "ctparse.rule.rule.<wrapper> (real span update)"],
                             stubs=["regex matches are group stubs (presence pattern x numeric ranges derived from the live pattern AST)"],
                             lift="lift_step" if lift else None, site=name))
@@ -110,7 +124,7 @@ def wf_jobs(prop, tier, rules=None, cell=(2024, 2), lift=True, timeout=None, ext
                 if k.count("year"):
                     spec["ym"] = [[2024, 2], [2023, 2]] if tier == "quick" else [[2023, 2], [2023, 12], [2024, 2], [2024, 4]]
                 env = {"VQ_PROP": prop, "VQ_SPEC": json.dumps(spec), "VQ_Y": str(cell[0]), "VQ_M": str(cell[1])}
-                jobs.append(Job("{}.WF[{}({})]".format(prop, pseudo, k), "vq.harness.h_wf", "ob_step", env=env, timeout=timeout or (150 if tier == "quick" else 600),
+                jobs.append(Job("{}.WF[{}({})]".format(prop, pseudo, k), "vq.harness.h_wf", "ob_step", env=env, timeout=timeout or (600 if tier == "quick" else 1500),
                                 bounds="every value of shape {} inside WF{}; ts: every instant of {}-{:02d}".format(k, "; dated fields in cells %s" % spec["ym"] if "ym" in spec else "", cell[0], cell[1]),
                                 functions=fnlist, lift="lift_step" if (lift and pseudo == "@latent") else None, site=pseudo))
     return jobs, b
